@@ -21,6 +21,11 @@ BITWISE equality (values compared with ==, so -0.0 == +0.0; NaN never equal).
   random leg   ~100 (quick) / ~1000 (thorough) random integer fields on random shapes (3-D 4..14, 2-D 4..40).
 Noise leg: Gaussian fields, non-dyadic prefactors, |lhs - rhs| <= 16 eps_t * (sum of |terms| bound).
 
+Workload diversity (added after the seeded-change campaign): the impulse legs run on a second grid each with the opposite
+orientation (8x6x5: x shortest; 10x7: grid_size_y > grid_size_x) through the SAME generated kernel objects; every third
+scalar kernel argument is a python float instead of real_t; the simulator leg builds a sibling of its first simulator
+(same shape, precision and solver, other x_range) later in the same process.
+
 Deliberate breaks tried (tools/mut.sh --sed '<expr>' <file> C12, quick tier, seed 0; files under
 sopht/numeric/eulerian_grid_ops/stencil_ops_{2d,3d}/): mutation -> VIOLATION mechanisms (impulse AND random legs)
   M1  curl_3d.py  curl_y "field_x[1,0,0] - field_x[-1,0,0]" -> "+" (sign)        -> div(curl)!=0, forcing!=w+p*curl
@@ -74,11 +79,19 @@ REQUIRE = {
     "cells_compared_bitwise": 1000000,
     "sim_divergence_norm_exact_zero": 12,
     "sim_control_nonzero_divergence_seen": 2,
+    "impulses_3d_on_grid_with_x_shortest": 2 * 3 * 240,
+    "impulses_2d_on_tall_grid": 2 * 3 * 70,
+    "sim_sibling_same_shape_other_dx": 2,
+    "scalar_args_python_float": 1000,
+    "scalar_args_real_t": 1000,
 }
 F64 = np.float64
 K_NOISE = 16.0
 G3 = (9, 10, 11)
 G2 = (9, 11)
+# second impulse grids with the opposite orientation: x (last axis) is the SHORTEST extent / grid_size_y > grid_size_x
+G3B = (8, 6, 5)
+G2B = (10, 7)
 PREF = (1.0, -1.0, 0.5, -0.5, 0.25, 0.125, 2.0**-4, 2.0**-5, 2.0**-6)
 
 
@@ -144,6 +157,19 @@ class Mon:
         return True
 
 
+_NSCALAR = [0]
+
+
+def _sc(rec, real_t, x):
+    """scalar kernel argument, alternately as real_t (what the simulators pass) and as a plain python float"""
+    _NSCALAR[0] += 1
+    if _NSCALAR[0] % 3 == 0:
+        rec.count("scalar_args_python_float")
+        return float(x)
+    rec.count("scalar_args_real_t")
+    return real_t(x)
+
+
 def _gen(rec, name, fn, **kw):
     try:
         return fn(**kw)
@@ -190,9 +216,9 @@ def id_divcurl3(mon, K, rng, real_t, F, p, inv_dx, resets, leg, tag, meta):
     for rc, rd in resets:
         c = util.sentinel_like(rng, F.shape, real_t)
         dv = util.sentinel_like(rng, shape, real_t)
-        if not _try(rec, "curl_3d-raises", meta, K.curl[rc], curl=c, field=F, prefactor=real_t(p)):
+        if not _try(rec, "curl_3d-raises", meta, K.curl[rc], curl=c, field=F, prefactor=_sc(rec, real_t, p)):
             continue
-        if not _try(rec, "divergence_3d-raises", meta, K.div[rd], divergence=dv, field=c, inv_dx=real_t(inv_dx)):
+        if not _try(rec, "divergence_3d-raises", meta, K.div[rd], divergence=dv, field=c, inv_dx=_sc(rec, real_t, inv_dx)):
             continue
         nb = None if leg != "noise" else 0.5 * abs(inv_dx) * abs(p) * 24 * util.maxabs(F)
         mon.same("div(curl)!=0", ("I1", 3, mon.dtype, leg, f"reset={rc},{rd}", tag), dv, 0.0, 2, meta, nb)
@@ -204,10 +230,10 @@ def id_forcing(mon, K, rng, real_t, w0, F, p, leg, tag, meta):
     rec, d = mon.rec, mon.d
     w = w0.copy()
     c = util.sentinel_like(rng, w0.shape, real_t)
-    if not _try(rec, "forcing-raises", meta, K.forcing, vorticity_field=w, velocity_forcing_field=F, prefactor=real_t(p)):
+    if not _try(rec, "forcing-raises", meta, K.forcing, vorticity_field=w, velocity_forcing_field=F, prefactor=_sc(rec, real_t, p)):
         return
     curl = K.curl[True] if d == 3 else K.inplane
-    if not _try(rec, "curl-raises", meta, curl, curl=c, field=F, prefactor=real_t(p)):
+    if not _try(rec, "curl-raises", meta, curl, curl=c, field=F, prefactor=_sc(rec, real_t, p)):
         return
     nb = None if leg != "noise" else util.maxabs(w0) + abs(p) * 4 * util.maxabs(F)
     mon.same("forcing!=w+p*curl", ("I3", d, mon.dtype, leg, tag), w, w0.astype(F64) + c.astype(F64), 1, meta, nb)
@@ -219,10 +245,10 @@ def id_penalised(mon, K, rng, real_t, w0, UP, U, p, leg, tag, meta):
     rec, d = mon.rec, mon.d
     w = w0.copy()
     w2 = w0.copy()
-    if not _try(rec, "penalised-raises", meta, K.pen, vorticity_field=w, penalised_velocity_field=UP, velocity_field=U, prefactor=real_t(p)):
+    if not _try(rec, "penalised-raises", meta, K.pen, vorticity_field=w, penalised_velocity_field=UP, velocity_field=U, prefactor=_sc(rec, real_t, p)):
         return
     diff = np.ascontiguousarray((UP.astype(F64) - U.astype(F64)).astype(real_t))
-    if not _try(rec, "forcing-raises", meta, K.forcing, vorticity_field=w2, velocity_forcing_field=diff, prefactor=real_t(p)):
+    if not _try(rec, "forcing-raises", meta, K.forcing, vorticity_field=w2, velocity_forcing_field=diff, prefactor=_sc(rec, real_t, p)):
         return
     nb = None if leg != "noise" else util.maxabs(w0) + abs(p) * 8 * (util.maxabs(UP) + util.maxabs(U))
     mon.same("penalised!=forcing(up-u)", ("I4", d, mon.dtype, leg, tag), w, w2, 1, meta, nb)
@@ -236,7 +262,7 @@ def id_psi2(mon, K, rng, real_t, psi, p, q, resets, leg, tag, meta):
     for r in resets:
         u = util.sentinel_like(rng, (2, *psi.shape), real_t)
         w = util.sentinel_like(rng, psi.shape, real_t)
-        if not _try(rec, "outplane_2d-raises", meta, K.outplane[r], curl=u, field=psi, prefactor=real_t(p)):
+        if not _try(rec, "outplane_2d-raises", meta, K.outplane[r], curl=u, field=psi, prefactor=_sc(rec, real_t, p)):
             continue
         U = u.astype(F64)
         # centred NumPy divergence (differences; the common 1/(2dx) is a power of two and omitted)
@@ -244,7 +270,7 @@ def id_psi2(mon, K, rng, real_t, psi, p, q, resets, leg, tag, meta):
         div[1:-1, 1:-1] = (U[0][1:-1, 2:] - U[0][1:-1, :-2]) + (U[1][2:, 1:-1] - U[1][:-2, 1:-1])
         nb = None if leg != "noise" else abs(p) * 16 * util.maxabs(P)
         mon.same("div(curl psi)!=0", ("I2a", 2, mon.dtype, leg, f"reset={r}", tag), div, 0.0, 2, meta, nb)
-        if not _try(rec, "inplane_2d-raises", meta, K.inplane, curl=w, field=u, prefactor=real_t(q)):
+        if not _try(rec, "inplane_2d-raises", meta, K.inplane, curl=w, field=u, prefactor=_sc(rec, real_t, q)):
             continue
         wide = np.full(psi.shape, np.nan)
         wide[2:-2, 2:-2] = -(float(real_t(q)) * float(real_t(p))) * (
@@ -266,6 +292,11 @@ def run_imp3d(sh, rec):
     K = K3(rec, real_t)
     mon = Mon(rec, sh["dtype"], 3)
     comp = sh["comp"]
+    for G3 in (globals()["G3"], G3B):
+        _imp3d_grid(sh, rec, rng, K, mon, comp, real_t, G3)
+
+
+def _imp3d_grid(sh, rec, rng, K, mon, comp, real_t, G3):
     w0 = ints(rng, (3, *G3), real_t)
     zero = np.zeros((3, *G3), real_t)
     n = 0
@@ -282,6 +313,8 @@ def run_imp3d(sh, rec):
         id_penalised(mon, K, rng, real_t, w0, F, zero, p, "impulse", tag + "-in-upen", meta)
         id_penalised(mon, K, rng, real_t, w0, zero, F, p, "impulse", tag + "-in-u", meta)
         rec.count("impulses_3d")
+        if G3[-1] < G3[0]:
+            rec.count("impulses_3d_on_grid_with_x_shortest")
     rec.note(f"exhaustive impulse basis: {n} cells of {G3} x component {'xyz'[comp]} ({sh['dtype']}), each impulse run separately")
 
 
@@ -290,6 +323,11 @@ def run_imp2d(sh, rec):
     rng = util.rng_for(sh["seed"], ID, "imp2d", sh["dtype"])
     K = K2(rec, real_t)
     mon = Mon(rec, sh["dtype"], 2)
+    for G2 in (globals()["G2"], G2B):
+        _imp2d_grid(sh, rec, rng, K, mon, real_t, G2)
+
+
+def _imp2d_grid(sh, rec, rng, K, mon, real_t, G2):
     w0 = ints(rng, G2, real_t)
     zero = np.zeros((2, *G2), real_t)
     n = 0
@@ -311,6 +349,8 @@ def run_imp2d(sh, rec):
             id_penalised(mon, K, rng, real_t, w0, F, zero, p, "impulse", tag + "-in-upen", meta)
             id_penalised(mon, K, rng, real_t, w0, zero, F, p, "impulse", tag + "-in-u", meta)
             rec.count("impulses_2d")
+        if G2[0] > G2[1]:
+            rec.count("impulses_2d_on_tall_grid", 3)
     rec.note(f"exhaustive impulse basis: {n} cells of {G2} x (psi, F_x, F_y) ({sh['dtype']}), each impulse run separately")
 
 
@@ -355,6 +395,8 @@ SIM_POOL = [
     ((8, 9, 16), 2.0, "fast_diagonalisation", True),
     ((10, 8, 8), 0.5, "greens_function_convolution", True),
     ((9, 10, 11), 1.0, "fast_diagonalisation", False),
+    # sibling of the first entry: same shape, precision and solver, other x_range (dx = 1/32), built later in the same process
+    ((9, 10, 8), 0.25, "fast_diagonalisation", True),
 ]
 
 
@@ -368,6 +410,8 @@ def run_sim3d(sh, rec):
                           "forcing": True, "solver": solver, "nu": 1e-2, "rho": 1.0})
         dx = float(sim.dx)
         meta = {"dtype": sh["dtype"], "shape": shape, "x_range": xr, "solver": solver, "dx": dx}
+        if (shape, xr) == SIM_POOL[-1][:2]:
+            rec.count("sim_sibling_same_shape_other_dx")
         upd = sim._update_vorticity_from_velocity_forcing  # the kernel object _navier_stokes_with_forcing_time_step calls
         if sim.eul_grid_forcing_field.shape != (3, *shape):
             raise AssertionError("unexpected forcing field shape")
